@@ -323,6 +323,15 @@ func parsePCR(i *astikit.BytesIterator) (cr *ClockReference, err error) {
 }
 
 func writePacket(w *astikit.BitsWriter, p *Packet, targetPacketSize int) (written int, retErr error) {
+	// Make sure the packet fits before writing anything: a rejected packet must not leave a partial packet in the output
+	if l := calcPacketLength(p); l > targetPacketSize {
+		return 0, fmt.Errorf(
+			"writePacket: can't write %d bytes of payload: only %d is available",
+			len(p.Payload),
+			targetPacketSize-(l-len(p.Payload)),
+		)
+	}
+
 	if retErr = w.Write(uint8(syncByte)); retErr != nil {
 		return
 	}
@@ -366,6 +375,18 @@ func writePacket(w *astikit.BitsWriter, p *Packet, targetPacketSize int) (writte
 	}
 
 	return written, nil
+}
+
+// calcPacketLength returns the number of bytes writePacket needs for the sync byte, header, adaptation field and payload
+func calcPacketLength(p *Packet) (length int) {
+	length = 1 + mpegTsPacketHeaderSize + len(p.Payload)
+	if p.Header.HasAdaptationField && p.AdaptationField != nil {
+		length++
+		if !p.AdaptationField.IsOneByteStuffing {
+			length += int(calcPacketAdaptationFieldLength(p.AdaptationField))
+		}
+	}
+	return
 }
 
 func writePacketHeader(w *astikit.BitsWriter, h PacketHeader) (written int, retErr error) {
